@@ -1109,7 +1109,7 @@ class LocalVar(MemoryDesc):
     def fmt_addr(self, instance):
         if isinstance(instance, SubProgram):
             return (self.fmt,
-                    (instance.ebpf.stack & -8) + self.relative_addr)
+                    (type(instance.ebpf).stack & -8) + self.relative_addr)
         else:
             return self.fmt, self.relative_addr
 
@@ -1544,7 +1544,10 @@ class EBPF(EBPFBase):
     @contextmanager
     def get_stack(self, size):
         oldstack = self.stack
-        self.stack = (self.stack - size) & -size
+        # temporaries live below the frames of all subprograms
+        low = min([self.stack] + [(type(self).stack & -8) + p.stack
+                                  for p in self.subprograms])
+        self.stack = (low - size) & -size
         yield self.stack
         self.stack = oldstack
 
